@@ -189,7 +189,7 @@ pub enum CaseOutcome {
 pub fn exec_case<C: Clone + Send + 'static>(case: &C, run: RunFn<C>, timeout_s: u64) -> CaseOutcome {
     let c = case.clone();
     let (tx, rx) = mpsc::channel();
-    let builder = std::thread::Builder::new().stack_size(256 << 20);
+    let builder = std::thread::Builder::new().stack_size(48 << 20);
     let handle = builder
         .spawn(move || {
             let mut obs = Obs::default();
